@@ -1271,6 +1271,45 @@ pub fn c11_case(tier: &str, seed: u64, case: u64) -> CaseResult {
 					variants.push((format!("field{}@{}={:#x}", w * 8, off, val), f));
 				}
 			}
+			// structure-aware: windows that look like a count or length field (small non-zero
+			// big-endian value) are set to values around the decoders' own caps (read_multi refuses
+			// counts above 1 000 000) while the body stays as short as it was; these are always kept
+			let mut priority: Vec<(String, Vec<u8>)> = vec![];
+			for off in 11..base.len() {
+				for w in [8usize, 4, 2] {
+					if off + w > base.len() {
+						continue;
+					}
+					let mut be = [0u8; 8];
+					be[8 - w..].copy_from_slice(&base[off..off + w]);
+					let cur = u64::from_be_bytes(be);
+					if cur == 0 || cur > 64 {
+						continue;
+					}
+					// skip windows that are the tail of a wider small field
+					if off > 11 && base[off - 1] == 0 && w < 8 {
+						continue;
+					}
+					let cands: &[u64] = match w {
+						8 => &[1_000, 65_535, 100_000, 999_999, 1_000_000, 1_000_001],
+						4 => &[1_000, 65_535, 100_000, 1_000_000],
+						_ => &[1_000, 65_535],
+					};
+					let val = *rng.pick(cands);
+					let mut f = base.clone();
+					let vb = val.to_be_bytes();
+					f[off..off + w].copy_from_slice(&vb[8 - w..]);
+					priority.push((format!("count{}@{}={}", w * 8, off, val), f.clone()));
+					// the same with the stream cut shortly after the first items
+					let keep = (off + w + rng.range(1, 900) as usize).min(f.len());
+					f.truncate(keep);
+					priority.push((format!("count{}@{}={}+truncate", w * 8, off, val), f));
+				}
+			}
+			if priority.len() > 60 {
+				rng.shuffle(&mut priority);
+				priority.truncate(60);
+			}
 			// tag / feature bytes swept
 			for off in 11..(11 + body_len.min(24)) {
 				for val in [0u8, 1, 2, 3, 4, 5, 0x7f, 0x80, 0xfe, 0xff] {
@@ -1310,16 +1349,36 @@ pub fn c11_case(tier: &str, seed: u64, case: u64) -> CaseResult {
 			}
 			rng.shuffle(&mut variants);
 			let take = (budget / all.len().max(1)).max(40);
-			for (what, f) in variants.into_iter().take(take) {
+			variants.truncate(take);
+			res.fault_n("mutation:count-field", priority.len() as u64);
+			variants.extend(priority);
+			for (what, f) in variants.into_iter() {
 				let cut = if rng.chance(1, 4) && f.len() > 1 { Some(1 + rng.usize_below(f.len() - 1)) } else { None };
 				let (hung, panic, _n, max_req) = hostile_delivery(&f, cut, v, &ah);
 				res.runs += 1;
 				res.steps += 1;
 				let kind = what.split('@').next().unwrap_or("").split('[').next().unwrap_or("").split('=').next().unwrap_or("").to_string();
-				res.fault(&format!("mutation:{}", kind));
+				if !kind.starts_with("count") {
+					res.fault(&format!("mutation:{}", kind));
+				}
 				res.run_digests.push((fnv64(&f), true));
 				let replay = json!({"engine": "wiresim", "property": "C11", "mode": "hostile", "version": v.0, "stream": hexs(&f), "cut": cut, "base": m.name, "mutation": what});
-				let bound = 4 * doc_limit(m.ty) as usize * 4 + 32 * f.len() + (1 << 20);
+				// the codec reserves the announced body length (refused above 4x the per-type limit)
+				// before reading; everything else must stay within a small multiple of what was
+				// actually received plus the decoders' fixed pre-allocations
+				let announced = if f.len() >= 11 {
+					let mut b8 = [0u8; 8];
+					b8.copy_from_slice(&f[3..11]);
+					let a = u64::from_be_bytes(b8);
+					if a <= limit as u64 {
+						a as usize
+					} else {
+						0
+					}
+				} else {
+					0
+				};
+				let bound = 2 * announced + 16 * f.len() + (256 << 10);
 				if hung {
 					violation = Some(viol("C11", &format!("decoder-hung:{}", m.name), format!("v{} {} {}: the reader did not return within 10 s after the peer closed", vnum, m.name, what), replay));
 					break 'outer;
